@@ -6,6 +6,7 @@ cd /verif
 python3 -m vlib.factgen                      # regenerate lean/Fan2go/Generated/Facts.lean from /repo
 python3 -m vlib.transgen                     # regenerate lean/Fan2go/Generated/Trans.lean (Go->Lean translation of the pure core)
 python3 -m vlib.transgen2                    # regenerate lean/Fan2go/Generated/Trans2.lean (second-generation translation: loops, slices, maps)
+python3 -m vlib.transgen3                    # regenerate lean/Fan2go/Generated/Trans3.lean (third generation: the stateful controller methods)
 [ -f vlib/accessgen.py ] && python3 -m vlib.accessgen || true
 cd /verif/lean
 lake build Fan2go drv 2>&1 | tail -3
